@@ -284,6 +284,15 @@ def run_program(item):
             if isinstance(e, (KeyboardInterrupt, SystemExit)):
                 raise
             cls = pl.err_class(e)
+            # the alarm of pl.with_timeout can fire inside library code that converts every Exception
+            # (inspect.getfullargspec -> TypeError('unsupported callable')): a timeout anywhere in the chain is a Timeout
+            x, hops = e, 0
+            while x is not None and hops < 12:
+                if type(x).__name__ == "_Timeout":
+                    cls = "Timeout"
+                    break
+                x = x.__cause__ or x.__context__
+                hops += 1
             out = ("err", cls)
             if cls.startswith("INTERNAL:"):
                 info = exc_info(e)
